@@ -8,6 +8,7 @@
   C11: a failed reload keeps the value and its expiration; a not-found reload removes it.
 -/
 import OtterVerif.Proofs.MapLemmas
+import OtterVerif.Proofs.BulkShape
 
 namespace OtterVerif.Props.C10
 open OtterVerif OtterVerif.Spec
@@ -181,5 +182,50 @@ def s1 : State := { now := 100, m := [(1, e1)], inflight := [(1, 5)] }
 example : s1.inflightOf 1 = some 5 := by decide
 example : ((finishCall {} s1 1 5 true false (.ok 9)).1.phys 1).map (·.val) = some 9 := by decide
 example : ((finishCall {} (Spec.set {} s1 1 8).1 1 5 true false (.ok 9)).1.phys 1).map (·.val) = some 8 := by decide
+
+
+/-! ### The shape of BulkGet (Spec.Bulk — the functions the judge uses for the expected loader keys and the expected result) -/
+section bulk
+open Proofs.BulkShape
+
+/-- every requested key is looked up exactly once and classified as a hit or as a miss; nothing else is -/
+theorem c10_bulk_request_partitioned (c : Cfg) (s : State) (ks : List Nat) :
+    (keysOf (bulkPlan c s ks)).Nodup ∧ ∀ k, k ∈ keysOf (bulkPlan c s ks) ↔ k ∈ ks :=
+  plan_partition c s ks
+
+/-- the loader is invoked for the missing keys only, each once -/
+theorem c10_bulk_loader_keys (c : Cfg) (s : State) (ks : List Nat) :
+    (bulkPlan c s ks).misses.Nodup ∧ ∀ k, k ∈ (bulkPlan c s ks).misses → k ∈ ks :=
+  misses_distinct_requested c s ks
+
+/-- BulkGet returns requested keys only, each distinct key at most once, for EVERY loader answer (full, partial, extra keys,
+    empty, duplicates) -/
+theorem c10_bulk_result_shape (c : Cfg) (s : State) (ks : List Nat) (kvs : List (Nat × Nat)) :
+    (∀ q, q ∈ bulkReturn (bulkPlan c s ks) kvs → q.1 ∈ ks) ∧ ((bulkReturn (bulkPlan c s ks) kvs).map (·.1)).Nodup :=
+  ⟨fun _ h => return_keys_requested c s ks kvs h, return_nodup c s ks kvs⟩
+
+/-- every returned value was cached at the lookup or is what the loader supplied for a key it was asked for -/
+theorem c10_bulk_result_source (c : Cfg) (s : State) (ks : List Nat) (kvs : List (Nat × Nat)) (q : Nat × Nat)
+    (h : q ∈ bulkReturn (bulkPlan c s ks) kvs) :
+    q ∈ (bulkPlan c s ks).hits ∨ (q.1 ∈ (bulkPlan c s ks).misses ∧ ∃ q', q' ∈ kvs ∧ q'.1 = q.1 ∧ q'.2 = q.2) :=
+  return_source c s ks kvs h
+
+/-- a missing key the loader did not supply is absent from the result -/
+theorem c10_bulk_absent_stays_absent (c : Cfg) (s : State) (ks : List Nat) (kvs : List (Nat × Nat)) (k : Nat)
+    (hk : k ∈ (bulkPlan c s ks).misses) (hno : ∀ q, q ∈ kvs → q.1 ≠ k) :
+    k ∉ (bulkReturn (bulkPlan c s ks) kvs).map (·.1) :=
+  unsupplied_absent c s ks kvs hk hno
+
+/-- a volunteered key is not returned on the loader's word (it is only cached) -/
+theorem c10_bulk_volunteered_not_returned (misses : List Nat) (kvs : List (Nat × Nat)) (q : Nat × Nat)
+    (h : q ∈ bulkVolunteered misses kvs) : q.1 ∉ (bulkSupplied misses kvs).map (·.1) :=
+  volunteered_not_supplied misses kvs h
+
+/-- non-vacuity: keys 1 (twice), 2, 3 requested on an empty cache, the loader supplies 1 and volunteers 9 -/
+example : (bulkPlan {} {} [1, 2, 1, 3]).misses = [1, 2, 3] ∧
+    bulkReturn (bulkPlan {} {} [1, 2, 1, 3]) [(1, 10), (9, 90)] = [(1, 10)] ∧
+    bulkVolunteered [1, 2, 3] [(1, 10), (9, 90)] = [(9, 90)] := by decide
+
+end bulk
 
 end OtterVerif.Props.C10
